@@ -152,6 +152,22 @@ fn family_b(ctx: &mut Ctx, text: &str, names: &[String]) {
             ctx.violation(format!("{TAG} channels: {text}"), "stdout differs between --evaluate, file and stdin".into(), case(&base(text, vec!["-t".into()]), Mode::Table(Filter::Any)));
         }
     }
+    // the same formula spread over several lines (one token per line): all channels must read
+    // the whole input
+    if text.contains(' ') {
+        let multi = text.replace(' ', "\n") + "\n";
+        let mut mouts = vec![];
+        for ch in [Channel::Evaluate, Channel::File, Channel::Stdin] {
+            let mut inv = base(&multi, vec!["-t".into()]);
+            inv.channel = ch;
+            mouts.push(check_run(ctx, &inv, Mode::Table(Filter::Any)));
+        }
+        if let (Some(a), Some(b), Some(c)) = (&mouts[0], &mouts[1], &mouts[2]) {
+            if a != b || a != c {
+                ctx.violation(format!("{TAG} channels (multi-line): {text}"), "stdout differs between --evaluate, file and stdin for a formula spread over several lines".into(), case(&base(&multi, vec!["-t".into()]), Mode::Table(Filter::Any)));
+            }
+        }
+    }
     // benchmark repetitions: identical stdout
     for n in ["1", "3"] {
         let inv = base(text, vec!["-t".into(), "-b".into(), n.into()]);
